@@ -147,7 +147,7 @@ def run(ctx, res):
         out = fontgen.build(c)
         res.count(key=("known", c["id"]), nontrivial=True)
         if "err" not in out:
-            check_otsvg_font(ctx, res, c, out)
+            check_otsvg_font(ctx, res, c, out, npts=23)   # dense grid: the listed witnesses must show on every run
     for c in nano.load_corpus(PID, "cases"):
         out = fontgen.build(c)
         res.count(key=("corpus", c["id"]), nontrivial=True)
